@@ -396,6 +396,11 @@ def stack(arrays, axis=None, keys=None, align=False, **kwargs):
         kwargs['strict'] = True
         arrays = align_(arrays, **kwargs)
 
+    # arrays are matched by dimension name, not by position: list the
+    # dimensions of every array in the order of the first one
+    dims0 = arrays[0].dims
+    arrays = [a if a.dims == dims0 else a.transpose(dims0) for a in arrays]
+
     # make it a numpy array
     data = [a.values for a in arrays]
     data = np.array(data)
@@ -530,6 +535,11 @@ def concatenate(arrays, axis=0, _no_check=False, align=False, **kwargs):
         for ax in arrays[0].axes:
             if ax.name != dim:
                 arrays = align_(arrays, axis=ax.name, **kwargs)
+
+    # arrays are matched by dimension name, not by position: list the
+    # dimensions of every array in the order of the first one
+    dims0 = arrays[0].dims
+    arrays = [a if a.dims == dims0 else a.transpose(dims0) for a in arrays]
 
     values = np.concatenate([a.values for a in arrays], axis=axis)
 
